@@ -98,3 +98,64 @@ if __name__ == "__main__":
         print(json.dumps(verify(sys.argv[2], sys.argv[3]), indent=1))
     elif sys.argv[1] == "check":
         print(json.dumps(check(sys.argv[2], sys.argv[3], sys.argv[4:]), indent=1))
+
+
+def eval_isolated(prop, k, ids, keep=False):
+    """Run checks against a bind-mounted COPY of /repo (HEAD + untracked hook files + the seeded
+    patch) and a copy of /verif, inside a private mount namespace, so that the real /repo and
+    /verif (where other work may be in progress) are never touched."""
+    d = f"/verif/seeded/{prop}-{k}"
+    root = f"/var/tmp/eval/{prop}-{k}"
+    shutil.rmtree(root, ignore_errors=True)
+    os.makedirs(root)
+    res = dict(property=prop, k=k, checks={})
+    rc, head = sh("git rev-parse --short HEAD", cwd="/repo")
+    res["repo_head"] = head.strip()
+    rc, out = sh(f"git worktree add -q --detach {root}/repo HEAD", cwd="/repo")
+    try:
+        for f in os.listdir("/repo"):
+            if f.startswith("verif_export") and not os.path.exists(f"{root}/repo/{f}"):
+                shutil.copyfile(f"/repo/{f}", f"{root}/repo/{f}")
+        rc, out = sh(f"git apply {d}/patch.diff || git apply --3way {d}/patch.diff", cwd=f"{root}/repo")
+        if rc != 0:
+            res["error"] = "patch does not apply to /repo HEAD: " + out[-400:]
+            return res
+        rc, out = sh("go build ./... && go build -tags verif ./...", cwd=f"{root}/repo")
+        if rc != 0:
+            res["error"] = "patched tree does not build: " + out[-400:]
+            return res
+        sh(f"rsync -a --exclude .git --exclude replays --exclude 'build/*.lock' /verif/ {root}/verif/")
+        os.makedirs(f"{root}/verif/replays", exist_ok=True)
+        for pid in ids:
+            t0 = time.time()
+            cmd = (f"unshare --mount bash -c 'mount --bind {root}/repo /repo && mount --bind {root}/verif /verif && "
+                   f"cd /verif && ./check {pid} quick'")
+            rc, out = sh(cmd, timeout=3000)
+            viol = [l for l in out.splitlines() if l.startswith("VIOLATION")]
+            detail = []
+            for v in viol[:4]:
+                m = re.search(r"replay=(\S+)", v)
+                if m:
+                    rp = m.group(1).replace("/verif/", f"{root}/verif/")
+                    if os.path.exists(rp):
+                        r = json.load(open(rp))
+                        detail.append(dict(layer=r.get("layer"), broken=str(r.get("broken"))[:400], has_input=bool(r.get("input"))))
+            res["checks"][pid] = dict(exit=rc, violations=len(viol),
+                                      no_failing_input=sum("no-failing-input-found" in v for v in viol),
+                                      detail=detail, wall_s=round(time.time() - t0, 1),
+                                      tail=out.strip().splitlines()[-1][:200] if out.strip() else "")
+        res["caught_by"] = sorted(p for p, r in res["checks"].items() if r["violations"] > 0)
+        return res
+    finally:
+        if not keep:
+            sh(f"git worktree remove --force {root}/repo", cwd="/repo")
+            shutil.rmtree(root, ignore_errors=True)
+            sh("git worktree prune", cwd="/repo")
+
+
+if __name__ == "__main__" and sys.argv[1] == "eval":
+    r = eval_isolated(sys.argv[2], sys.argv[3], sys.argv[4:])
+    os.makedirs("/var/tmp/evalres", exist_ok=True)
+    json.dump(r, open(f"/var/tmp/evalres/{sys.argv[2]}-{sys.argv[3]}.json", "w"), indent=1)
+    print(json.dumps(dict(property=r["property"], k=r["k"], caught_by=r.get("caught_by"), error=r.get("error"),
+                          checks={p: (c["exit"], c["violations"], c["wall_s"]) for p, c in r.get("checks", {}).items()})))
